@@ -106,6 +106,11 @@ CHECKS = {
          "The design model (spec/UrlFilter.tla) is checked over every history with the fault at any point. Trace_Fault.tla validates real histories in order: file-backed random lists (every fifth with a 3000-line slice of the bundled lists), a fault at a random point (RuleStorage.Close, or one list's file handle replaced by a closed descriptor), queries through DNSEngine.MatchRequest and NetworkEngine.MatchAll on the faulted engine and on a fault-free twin, plus the rules that truly match by a linear scan with the rules' own Match. Allowed: no crash; every returned rule truly matches; both engines agree before the fault; afterwards the matching network rules are a subset of the twin's and those already returned before the fault are still returned.",
          "Trusted: TLC, rule.Match / HostRule.Match as the oracle the property names. 'Still served' is required only for rules the faulted engine had returned before the fault.",
          "6/C19"),
+ "C14": ("model_checking",
+         "exhaustive TLC check of a PlusCal lock-protocol model (all interleavings; lock-removed variants give attack schedules); real engines under the Go race detector with perturbed yield hooks; gate-forced window overlaps whose logged yield events TLC validates as behaviours of the model",
+         "spec/Concurrency.tla (PlusCal, one label per critical-section step of RetrieveRule / FileRuleList.RetrieveRule / preparePattern) is checked exhaustively for 2 (quick) / 3 (thorough) goroutines x 2 indexes: torn seek/read, buffer, cache and lazy-compile lockset disciplines and 'every goroutine gets the rule at its index'; each lock-removed variant must violate an invariant. Binding: (a) the real engines are queried by 2-32 goroutines (string and file stores, cold caches) in a -race build with the verif yield hooks perturbing the four windows, every answer compared with the sequential answer and every race report counted; (b) gate runs hold a goroutine inside each yield window so that a second one may enter it - the attack schedules - and compare answers (this also covers the kernel file offset, which the race detector cannot see); (c) the yield events logged in every gate run are fed back to TLC (Follow = TRUE): the execution is accepted iff some behaviour of the lock model performs exactly those events.",
+         "Trusted: TLC, pcal, the Go race detector on the executions provoked. The sync.Pool fragment is exercised by the race runs only.",
+         "6/C14"),
 }
 
 NOT_YET = "check not built yet in this session (see DESIGN.md section 6 for the planned TLA+ decision procedure)"
